@@ -1231,6 +1231,54 @@ fn run_splice_direct(cx: &mut Ctx) {
     }
 }
 
+
+/// slow application: time passes BETWEEN intercept_request and intercept_response of one exchange.
+/// State that has been idle for longer than the expiry by the time the response comes through must
+/// not be used (nor revived) by intercept_response either (C20)
+pub fn run_slow_app(cx: &mut Ctx, rng: &mut Rng, shapes: &[ReqShape]) {
+    let shape = &shapes[0];
+    for &ttl in &[20u64, 1000] {
+        for d in [ttl - 1, ttl, ttl + 1, 3 * ttl] {
+            // 1. a size preference given with the request is forgotten when the reply comes too late
+            let body = body_of(rng, 150);
+            let mut a = Session::new(200, ttl);
+            let mut problems: Vec<(&'static str, String)> = vec![];
+            let o = a.step(Op::Req(1, shape.spec(1, None, Some(bv_bytes(0, false, 0)), &[])));
+            a.step(Op::Tick(d));
+            let ra = a.step(Op::App(0x45, vec![], body.clone()));
+            let mut b = Session::new(200, ttl);
+            b.step(Op::Req(1, shape.spec(1, None, None, &[])));
+            let rb = b.step(Op::App(0x45, vec![], body.clone()));
+            if o.outcome == Outcome::Ok(false) {
+                let blk = |r: &StepOut| r.resp.as_ref().and_then(|p| first_opt(p, 23)).and_then(|v| parse_bv(&v));
+                if d > ttl {
+                    if blk(&ra) != blk(&rb) || ra.resp.as_ref().map(|p| p.payload.clone()) != rb.resp.as_ref().map(|p| p.payload.clone()) {
+                        problems.push(("C20", format!("the reply came {} ms after the request (expiry {} ms) and was still cut by the request's expired Block2 preference: {:?} instead of {:?}", d, ttl, blk(&ra), blk(&rb))));
+                    }
+                } else if blk(&ra).map(|x| x.2) != Some(0) {
+                    problems.push(("C20", format!("the reply came {} ms after the request (expiry {} ms) but the request's Block2 preference was not honoured: {:?}", d, ttl, blk(&ra))));
+                }
+            }
+            report(cx, &a, problems);
+            FakeClock::set_time(0);
+            // 2. an upload block buffered, then nothing but a late intercept_response for that key (a server
+            //    that routes every reply through the handler), then the final block
+            let mut s = Session::new(1152, ttl);
+            let mut problems: Vec<(&'static str, String)> = vec![];
+            let body = body_of(rng, 24);
+            s.step(Op::Req(1, shape.spec(5, Some(bv_bytes(0, true, 0)), None, &body[..16])));
+            s.step(Op::Tick(d));
+            s.step(Op::App(0x5f, vec![], vec![]));
+            let f = s.step(Op::Req(1, shape.spec(6, Some(bv_bytes(1, false, 0)), None, &body[16..])));
+            let want: Vec<u8> = if d <= ttl { body.clone() } else { [vec![0u8; 16], body[16..].to_vec()].concat() };
+            if f.outcome != Outcome::Ok(false) || f.req_payload != want {
+                problems.push(("C20", format!("upload buffer idle for {} ms (expiry {} ms) before a late intercept_response: the final block delivered {} bytes ({}), expected {}", d, ttl, f.req_payload.len(), f.outcome.token(), if d <= ttl { "the whole body" } else { "a fresh buffer" })));
+            }
+            report(cx, &s, problems);
+        }
+    }
+}
+
 /// reclamation: abandoned transfers do not hold memory after expiry + one more use (observed through the allocator)
 fn run_reclaim(cx: &mut Ctx, shapes: &[ReqShape]) {
     let shape = &shapes[0];
@@ -1741,6 +1789,11 @@ pub fn run(cx: &mut Ctx) {
                 let shape = ReqShape { code: 1, ..shape };
                 let mut sess = Session::new(64, 60000);
                 run_download(cx, &Download { shape: &shape, ep: 1, m: 64, body: body.clone(), resp_opts: vec![(n, val.clone())], first_szx: None, reduce_at: None, followup_toks: vec![] }, &mut sess, true);
+                // … and the option only on the application's reply: the requests (first and follow-ups) do not
+                // carry it, every block must repeat it all the same
+                let plain = ReqShape { extra: vec![], ..shape.clone() };
+                let mut sess = Session::new(64, 60000);
+                run_download(cx, &Download { shape: &plain, ep: 1, m: 64, body: body.clone(), resp_opts: vec![(n, val.clone())], first_szx: None, reduce_at: None, followup_toks: vec![] }, &mut sess, true);
             }
         }
     }
@@ -1774,6 +1827,7 @@ pub fn run(cx: &mut Ctx) {
             cx.oracle_fail("C20", &line, &format!("cached response did not survive {} intervening requests on other keys within the expiry time", n_other));
         }
     }
+    run_slow_app(cx, &mut rng, &shapes);
     run_splice_direct(cx);
     run_reclaim(cx, &shapes);
     let _ = (parse_val("-"), BlockValue::try_from(vec![]).is_ok(), ResponseType::Content);
